@@ -1,3 +1,88 @@
 import Ptk.Proto
--- stub: the C11 model driver has not been written yet
-def main : IO Unit := Ptk.Proto.run fun _ => "bad-op"
+import Ptk.Gen.C11
+import Ptk.Model.C11
+open Ptk Ptk.Py Ptk.Proto Ptk.C11
+
+/-- runtime character classes regenerated from the current tree / interpreter -/
+def genW : Widths := { rw := Gen.C11.rawWidth, disp := Gen.C11.display }
+
+def decChar (tok : String) : Option Char := tok.toNat?.map Char.ofNat
+
+/-- parse `n` processors from the token list -/
+def parseProcs : Nat → List String → Option (List Proc × List String)
+  | 0, rest => some ([], rest)
+  | n + 1, "T" :: ts :: c1 :: c2 :: rest => do
+    let p := Proc.tabs (← decNat ts) (← decChar c1) (← decChar c2)
+    let (ps, r) ← parseProcs n rest
+    pure (p :: ps, r)
+  | n + 1, "B" :: t :: rest => do
+    let p := Proc.before (← decStr t)
+    let (ps, r) ← parseProcs n rest
+    pure (p :: ps, r)
+  | n + 1, "A" :: t :: rest => do
+    let p := Proc.after (← decStr t)
+    let (ps, r) ← parseProcs n rest
+    pure (p :: ps, r)
+  | n + 1, "P" :: c :: rest => do
+    let p := Proc.password (← decChar c)
+    let (ps, r) ← parseProcs n rest
+    pure (p :: ps, r)
+  | _, _ => none
+
+def encCell (t : Text) : String := ".".intercalate (t.map fun c => toString c.toNat)
+
+def encRow (cells : List ((Int × Int) × Text)) (y xoff : Int) (width : Nat) : String :=
+  "r:" ++ ",".intercalate ((List.range width).map fun (x : Nat) => encCell (cellAt cells (y, xoff + (x : Int))))
+
+def showRendered (r : Rendered) (ypos : Int) (height : Nat) : String :=
+  let st := r.st
+  let (cyS, cxS) := cursorScreen st r.cy r.cx
+  let vl := st.vl.reverse
+  let rc := st.rc.reverse
+  let vlS := vl.foldl (fun acc (y, row, col) => acc ++ s!" {y} {row} {col}") s!"vl {vl.length}"
+  let rcS := rc.foldl (fun acc ((row, col), (y, x)) => acc ++ s!" {row} {col} {y} {x}") s!"rc {rc.length}"
+  let rows := (List.range height).map fun (y : Nat) => encRow st.cells (ypos + (y : Int)) r.xoff r.width.toNat
+  s!"{r.scroll.vs} {r.scroll.hs} {r.scroll.vs2} {r.cy} {r.cx} {r.width} {r.xoff} {cyS} {cxS} {vlS} {rcS} " ++
+    " ".intercalate rows
+
+def stepLine (s : Scroll) (toks : List String) : Scroll × String :=
+  match toks with
+  | ["init", a, b, c] =>
+    match decInt a, decInt b, decInt c with
+    | some a, some b, some c => ({ vs := a, hs := b, vs2 := c }, "ok")
+    | _, _, _ => (s, "bad-op")
+  | "render" :: w :: h :: wrap :: xpos :: ypos :: top :: bottom :: left :: right :: beyond :: margin ::
+      hasP :: pA :: pB :: pC :: np :: rest =>
+    let r : Option (Scroll × String) := do
+      let w ← decNat w
+      let h ← decNat h
+      let wrap ← decBool wrap
+      let xpos ← decInt xpos
+      let ypos ← decInt ypos
+      let top ← decNat top
+      let bottom ← decNat bottom
+      let left ← decNat left
+      let right ← decNat right
+      let beyond ← decBool beyond
+      let margin ← decBool margin
+      let hasP ← decBool hasP
+      let pA ← decStr pA
+      let pB ← decStr pB
+      let pC ← decStr pC
+      let np ← decNat np
+      let (procs, rest) ← parseProcs np rest
+      match rest with
+      | [text, cur] =>
+        let text ← decStr text
+        let cur ← decNat cur
+        let cfg : Cfg := { xpos := xpos, ypos := ypos, top := top, bottom := bottom, left := left,
+                           right := right, beyond := beyond, margin := margin,
+                           pfx := if hasP then some (pA, pB, pC) else none, procs := procs }
+        match render genW cfg w h wrap text cur s with
+        | some r => pure (r.scroll, showRendered r ypos h)
+        | none => pure (s, "err:KeyError")
+      | _ => none
+    r.getD (s, "bad-op")
+  | _ => (s, "bad-op")
+
+def main : IO Unit := runS stepLine { vs := 0, hs := 0, vs2 := 0 }
